@@ -21,6 +21,11 @@ import Pyunicorn.Model.VisibilityBetw
   kernel `_nsi_betweenness` (with the masks / index arrays the three methods build), then the same
   three from the pair-dependency definition `betwSpec`
 * `hvgf32 N x` — the horizontal kernel on the series converted to float32 (`rndF32` on every sample)
+* `rnd32 q1,q2,…` — round 4: `rndF32` of every rational (compared with the hardware's binary32
+  conversion, subtraction and division)
+* `pl x t|- missing horizontal` — round 4: `path_lengths()` of the constructed graph computed by the
+  breadth-first search `Net.dist` (C03's model; `pathLen_is_bfs`), rows separated by `;`, `inf`
+  for unreachable, followed by `|` and the same matrix from the specification `pathLen`
 -/
 open Pyunicorn Pyunicorn.Proto Pyunicorn.Visibility
 
@@ -58,8 +63,21 @@ def showClass (paths : Bool) : Except Err (List (List Bool)) → String
       else []
     join (base ++ ext) "|"
 
+def showDist (ds : List (List (Option Nat))) : String :=
+  if ds.isEmpty then "-" else
+    join (ds.map fun row => join (row.map fun d => match d with | none => "inf" | some k => toString k)) ";"
+
 def answer (toks : List String) : String :=
   match toks with
+  | ["rnd32", q] => showRats ((rats q).map rndF32)
+  | ["pl", x, t, mis, hor] =>
+      match classMat (vals x) (if t == "-" then none else some (rats t)) (mis == "1") (hor == "1") with
+      | .error e => showErr e
+      | .ok A =>
+        let N := A.length
+        let r := List.range N
+        showDist (r.map fun i => r.map fun j => Net.dist N (adjFn A) i j) ++ "|" ++
+          showDist (r.map fun i => r.map fun j => pathLen N A i j)
   | ["nvg_mv", n, x, t, m] =>
       showMat (kernelNM (vals x) (rats t) (some (bools m)) n.toNat! (zeros n.toNat!))
   | ["nvg", n, x, t] => showMat (kernelNM (vals x) (rats t) none n.toNat! (zeros n.toNat!))
